@@ -113,7 +113,45 @@ func (e *Engine) spawnFunc(st *State, f FuncV, site string) {
 	panic(e.unsupported("goroutine creation inside code under test (gopool.Go) at " + site))
 }
 
+type deferredGo struct {
+	cc   *ssa.CallCommon
+	fnv  Value
+	recv Value
+	args []Value
+	site string
+	g    smt.Term // path guard under which the go statement was executed
+}
+
+// runDeferredGo executes the goroutines recorded under go_policy=defer, in start order, each to
+// completion (vfRunGoroutines): one legal schedule in which they run at a harness-chosen moment.
+func (e *Engine) runDeferredGo(st *State) {
+	list := e.goDeferred
+	e.goDeferred = nil
+	c := e.C
+	for _, g := range list {
+		on := c.And(st.G, g.g)
+		if on.IsFalse() {
+			continue
+		}
+		if c.And(st.G, c.Not(g.g)).IsFalse() {
+			e.doCall(nil, st, g.cc, g.fnv, g.recv, g.args, g.site)
+			continue
+		}
+		// started on some paths only: it runs under that guard, the rest of the state is untouched
+		run := &State{G: on, Heap: cloneHeap(st.Heap), Th: st.Th}
+		e.doCall(nil, run, g.cc, g.fnv, g.recv, g.args, g.site)
+		rest := &State{G: c.And(st.G, c.Not(g.g)), Heap: st.Heap, Th: st.Th}
+		m := e.mergeStates(run, rest)
+		st.G, st.Heap = m.G, m.Heap
+	}
+}
+
 func (e *Engine) spawnGo(st *State, cc *ssa.CallCommon, fnv, recv Value, args []Value, site string) {
+	if st.Th == nil && e.GoPolicy == "defer" {
+		e.Notes = append(e.Notes, "goroutine started at "+site+" runs when the harness says so (vfRunGoroutines)")
+		e.goDeferred = append(e.goDeferred, deferredGo{cc, fnv, recv, args, site, st.G})
+		return
+	}
 	if st.Th == nil && e.GoPolicy == "inline" {
 		e.Notes = append(e.Notes, "goroutine started at "+site+" runs to completion immediately (single schedule)")
 		e.doCall(nil, st, cc, fnv, recv, args, site)
